@@ -46,7 +46,8 @@ UNIVERSE = [(15, "SNP2"), (50, "SNP4"), (80, "INS1")]
 
 def BOUNDS(tier):
     return ["generated: base gene GA (pseudogene, +/- strands), K=" +
-            ("3" if tier == "thorough" else "2") + " symbolic alleles over a 3-variant "
+            ("3 (third allele restricted to normal/left fusion over two variants)"
+             if tier == "thorough" else "2") + " symbolic alleles over a 3-variant "
             "universe, 5 structural kinds, functional flags symbolic",
             "corpus: all 38 shipped databases x {hg19, hg38}"]
 
@@ -224,6 +225,9 @@ def run_gen(cfg):
     base = [z3.And(m >= 0, m < 8) for m in masks] + [z3.And(k >= 0, k < len(KINDS))
                                                      for k in kinds]
     base.append(kinds[0] == cfg["first"])
+    if K > 2:
+        # third allele: normal or left fusion, over the first two variants only
+        base += [masks[2] < 4, kinds[2] <= 1]
     # at most one whole-gene deletion allele, listed last (a database property)
     base.append(z3.Sum([z3.If(k == KINDS.index("deletion"), 1, 0) for k in kinds]) <= 1)
     tag = f"gen/K={K}/first={KINDS[cfg['first']]}/names={cfg.get('names', 1)}"
